@@ -12,8 +12,14 @@ ids = [a for a in sys.argv[1:] if not a.startswith("--")]
 res_p = V / "seeded" / "RESULTS.json"
 res = json.loads(res_p.read_text()) if res_p.exists() else {}
 targets = []
+only = None
+for a_ in sys.argv[1:]:
+    if a_.startswith("--only="):
+        only = a_.split("=", 1)[1].split(",")
 for d in sorted((V / "seeded").glob("C*-*")):
     pid = d.name.split("-")[0]
+    if only and d.name.split("-")[1] not in only:
+        continue
     if (not ids or pid in ids) and (V / "vf" / "props" / f"{pid.lower()}.py").exists():
         pr = d / "patch_rebased.diff"
         targets.append((d.name, pid, pr if pr.exists() else d / "patch.diff"))
